@@ -84,7 +84,12 @@ def run(ctx):
             for ti, to in zip(l.split(), o.split()):
                 if (ti in res_user or ti in RESERVED) and ti != to:
                     ctx.fail("reserved word token %r was changed to %r" % (ti, to), {"line": l, "words": words, "reserved": res_user}, o, label="impl")
-    ctx.evaluations = sum(len(c) - 11 for c in cases) * (1 + len(seeds))
+    # word lists outside the model's domain (whitespace inside a word): implementation only
+    ph = textgen.pipe(["a sensitive phrase here\n", "Sensitive   Phrase\n"], flags="", words=["sensitive phrase"])
+    for l, o in zip(ph[11:], textgen.outlines(vlib.run_impl([ph])[0])):
+        if "sensitive phrase" in " ".join(o.lower().split()):
+            ctx.fail("listed word 'sensitive phrase' survives", {"line": l, "words": ["sensitive phrase"]}, o, label="word-with-space")
+    ctx.evaluations = sum(len(c) - 11 for c in cases) * (1 + len(seeds)) + 2
     ctx.distinct_nontrivial = nt
     ctx.search_stats = {"cases": len(cases), "hash_seeds": [0] + seeds, "lines_with_listed_word": nt}
     ctx.samples = [{"line": cases[0][11], "words": cases[0][3], "impl": textgen.outlines(i[0])[0]}, {"line": cases[3][12], "words": cases[3][3], "impl": textgen.outlines(i[3])[1]}]
